@@ -228,6 +228,165 @@ example : eval Grids.GrangerAnalyzer_frequencies 3 1 4 = [0, 1/6, 1/3] := by dec
 
 example : eval Grids.SpectralAnalyzer_spectrum_fourier_complex 3 1 4 = [-1/2, -1/4, 0, 1/4] := by decide +kernel
 
+/-! ### the grid is the grid OF THE TRANSFORM ACTUALLY USED
+
+`GridLens.<estimator>` (generated by symbolic execution of the function body) says which length the grid is built
+from and which transform the spectral values are read from, as functions of the optional arguments
+(`LenEnv`: number of samples, `N=`/`NFFT=`, length of a supplied `Sk=`).  For every combination of them: -/
+
+/-- `periodogram`: the grid length is the number of points of the transform the values are read from -/
+theorem periodogram_grid_length_is_transform_length (e : LenEnv) :
+    GridLens.periodogram.gridLen.eval e = GridLens.periodogram.transform.len e := by
+  rcases e with ⟨d, f, s⟩
+  cases s <;> cases f <;> simp [GridLens.periodogram, LenExpr.eval, TrExpr.len, LCond.eval]
+
+theorem periodogram_csd_grid_length_is_transform_length (e : LenEnv) :
+    GridLens.periodogram_csd.gridLen.eval e = GridLens.periodogram_csd.transform.len e := by
+  rcases e with ⟨d, f, s⟩
+  cases s <;> cases f <;> simp [GridLens.periodogram_csd, LenExpr.eval, TrExpr.len, LCond.eval]
+
+theorem multi_taper_psd_grid_length_is_transform_length (e : LenEnv) :
+    GridLens.multi_taper_psd.gridLen.eval e = GridLens.multi_taper_psd.transform.len e := by
+  rcases e with ⟨d, f, s⟩
+  cases s <;> cases f <;> simp [GridLens.multi_taper_psd, LenExpr.eval, TrExpr.len, LCond.eval]
+
+theorem multi_taper_csd_grid_length_is_transform_length (e : LenEnv) :
+    GridLens.multi_taper_csd.gridLen.eval e = GridLens.multi_taper_csd.transform.len e := by
+  rcases e with ⟨d, f, s⟩
+  cases s <;> cases f <;> simp [GridLens.multi_taper_csd, LenExpr.eval, TrExpr.len, LCond.eval]
+
+/-- a supplied transform is the one the values are read from, and the grid has ITS length — whatever the number of
+samples and whatever `N=`/`NFFT=` say (a zero-padded `Sk = fft(s, n=L)`, `L ≠ s.shape[-1]`, included) -/
+theorem periodogram_supplied_transform_decides (d : ℕ) (f : Option ℕ) (L : ℕ) :
+    GridLens.periodogram.transform.usesSupplied ⟨d, f, some L⟩ = true ∧
+    GridLens.periodogram.gridLen.eval ⟨d, f, some L⟩ = L := by
+  cases f <;> simp [GridLens.periodogram, LenExpr.eval, TrExpr.usesSupplied, LCond.eval]
+
+theorem periodogram_csd_supplied_transform_decides (d : ℕ) (f : Option ℕ) (L : ℕ) :
+    GridLens.periodogram_csd.transform.usesSupplied ⟨d, f, some L⟩ = true ∧
+    GridLens.periodogram_csd.gridLen.eval ⟨d, f, some L⟩ = L := by
+  cases f <;> simp [GridLens.periodogram_csd, LenExpr.eval, TrExpr.usesSupplied, LCond.eval]
+
+/-- without `Sk=`: an `n`-point transform of the data is taken, `n` = the `NFFT=` argument when given, else the
+number of samples (`periodogram`: `N=0` counts as not given) -/
+theorem periodogram_csd_length_without_transform (d : ℕ) (f : Option ℕ) :
+    GridLens.periodogram_csd.gridLen.eval ⟨d, f, none⟩ = f.getD d := by
+  cases f <;> simp [GridLens.periodogram_csd, LenExpr.eval, LCond.eval]
+
+theorem periodogram_length_without_transform (d : ℕ) (f : Option ℕ) :
+    GridLens.periodogram.gridLen.eval ⟨d, f, none⟩ = (match f with | some (k + 1) => k + 1 | _ => d) := by
+  rcases f with _ | _ | k <;> simp [GridLens.periodogram, LenExpr.eval, LCond.eval]
+
+/-- multitaper: `tapered_spectra` never takes fewer points than there are samples -/
+theorem multi_taper_length (d : ℕ) (f s : Option ℕ) :
+    GridLens.multi_taper_psd.gridLen.eval ⟨d, f, s⟩ = max d (f.getD 0) ∧
+    GridLens.multi_taper_csd.gridLen.eval ⟨d, f, s⟩ = max d (f.getD 0) := by
+  rcases f with _ | k
+  · simp [GridLens.multi_taper_psd, GridLens.multi_taper_csd, LenExpr.eval, LCond.eval]
+  · by_cases h : k < d <;>
+      simp [GridLens.multi_taper_psd, GridLens.multi_taper_csd, LenExpr.eval, LCond.eval, h] <;> omega
+
+/-- … hence, per site and side: the reported grid is the true grid of the transform actually used -/
+theorem periodogram_onesided_is_true_grid_of_used_transform (pi Fs : ℚ) (e : LenEnv) :
+    eval Grids.periodogram_onesided pi Fs (GridLens.periodogram.gridLen.eval e)
+      = trueOneSided Fs (GridLens.periodogram.transform.len e) := by
+  rw [periodogram_onesided_is_true_grid, periodogram_grid_length_is_transform_length]
+
+theorem periodogram_twosided_is_true_grid_of_used_transform (pi Fs : ℚ) (e : LenEnv) :
+    eval Grids.periodogram_twosided pi Fs (GridLens.periodogram.gridLen.eval e)
+      = trueTwoSided Fs (GridLens.periodogram.transform.len e) := by
+  rw [periodogram_twosided_is_true_grid, periodogram_grid_length_is_transform_length]
+
+theorem periodogram_csd_onesided_is_true_grid_of_used_transform (pi Fs : ℚ) (e : LenEnv) :
+    eval Grids.periodogram_csd_onesided pi Fs (GridLens.periodogram_csd.gridLen.eval e)
+      = trueOneSided Fs (GridLens.periodogram_csd.transform.len e) := by
+  rw [periodogram_csd_onesided_is_true_grid, periodogram_csd_grid_length_is_transform_length]
+
+theorem periodogram_csd_twosided_is_true_grid_of_used_transform (pi Fs : ℚ) (e : LenEnv) :
+    eval Grids.periodogram_csd_twosided pi Fs (GridLens.periodogram_csd.gridLen.eval e)
+      = trueTwoSided Fs (GridLens.periodogram_csd.transform.len e) := by
+  rw [periodogram_csd_twosided_is_true_grid, periodogram_csd_grid_length_is_transform_length]
+
+theorem multi_taper_psd_onesided_is_true_grid_of_used_transform (pi Fs : ℚ) (e : LenEnv) :
+    eval Grids.multi_taper_psd_onesided pi Fs (GridLens.multi_taper_psd.gridLen.eval e)
+      = trueOneSided Fs (GridLens.multi_taper_psd.transform.len e) := by
+  rw [multi_taper_psd_onesided_is_true_grid, multi_taper_psd_grid_length_is_transform_length]
+
+theorem multi_taper_psd_twosided_is_true_grid_of_used_transform (pi Fs : ℚ) (e : LenEnv) :
+    eval Grids.multi_taper_psd_twosided pi Fs (GridLens.multi_taper_psd.gridLen.eval e)
+      = trueTwoSided Fs (GridLens.multi_taper_psd.transform.len e) := by
+  rw [multi_taper_psd_twosided_is_true_grid, multi_taper_psd_grid_length_is_transform_length]
+
+theorem multi_taper_csd_onesided_is_true_grid_of_used_transform (pi Fs : ℚ) (e : LenEnv) :
+    eval Grids.multi_taper_csd_onesided pi Fs (GridLens.multi_taper_csd.gridLen.eval e)
+      = trueOneSided Fs (GridLens.multi_taper_csd.transform.len e) := by
+  rw [multi_taper_csd_onesided_is_true_grid, multi_taper_csd_grid_length_is_transform_length]
+
+theorem multi_taper_csd_twosided_is_true_grid_of_used_transform (pi Fs : ℚ) (e : LenEnv) :
+    eval Grids.multi_taper_csd_twosided pi Fs (GridLens.multi_taper_csd.gridLen.eval e)
+      = trueTwoSided Fs (GridLens.multi_taper_csd.transform.len e) := by
+  rw [multi_taper_csd_twosided_is_true_grid, multi_taper_csd_grid_length_is_transform_length]
+
+/-- `get_spectra` hands the entries of the method dict (`Sk`, `NFFT`) on to the estimator (`func(time_series, **mdict)`),
+so its grid is the estimator's, for every combination of them -/
+theorem get_spectra_periodogram_csd_onesided_is_true_grid_of_used_transform (pi Fs : ℚ) (e : LenEnv) :
+    eval Grids.get_spectra_periodogram_csd_onesided pi Fs (GridLens.periodogram_csd.gridLen.eval e)
+      = trueOneSided Fs (GridLens.periodogram_csd.transform.len e) := by
+  rw [get_spectra_periodogram_csd_onesided_is_true_grid, periodogram_csd_grid_length_is_transform_length]
+
+theorem get_spectra_periodogram_csd_twosided_is_true_grid_of_used_transform (pi Fs : ℚ) (e : LenEnv) :
+    eval Grids.get_spectra_periodogram_csd_twosided pi Fs (GridLens.periodogram_csd.gridLen.eval e)
+      = trueTwoSided Fs (GridLens.periodogram_csd.transform.len e) := by
+  rw [get_spectra_periodogram_csd_twosided_is_true_grid, periodogram_csd_grid_length_is_transform_length]
+
+theorem get_spectra_multi_taper_csd_onesided_is_true_grid_of_used_transform (pi Fs : ℚ) (e : LenEnv) :
+    eval Grids.get_spectra_multi_taper_csd_onesided pi Fs (GridLens.multi_taper_csd.gridLen.eval e)
+      = trueOneSided Fs (GridLens.multi_taper_csd.transform.len e) := by
+  rw [get_spectra_multi_taper_csd_onesided_is_true_grid, multi_taper_csd_grid_length_is_transform_length]
+
+theorem get_spectra_multi_taper_csd_twosided_is_true_grid_of_used_transform (pi Fs : ℚ) (e : LenEnv) :
+    eval Grids.get_spectra_multi_taper_csd_twosided pi Fs (GridLens.multi_taper_csd.gridLen.eval e)
+      = trueTwoSided Fs (GridLens.multi_taper_csd.transform.len e) := by
+  rw [get_spectra_multi_taper_csd_twosided_is_true_grid, multi_taper_csd_grid_length_is_transform_length]
+
+/-- the analyzers that delegate (`tsa.periodogram(data, Fs=…)`, `tsa.multi_taper_psd(data, Fs=…, …)`: no `N=`, `NFFT=`, `Sk=`
+— the translator refuses the site otherwise) get the transform of the data itself, `n` points, and its grid -/
+theorem SpectralAnalyzer_periodogram_is_true_grid_of_used_transform (pi Fs : ℚ) (n : ℕ) :
+    GridLens.periodogram.transform.len ⟨n, none, none⟩ = n ∧
+    eval Grids.SpectralAnalyzer_periodogram_onesided pi Fs (GridLens.periodogram.gridLen.eval ⟨n, none, none⟩) = trueOneSided Fs n ∧
+    eval Grids.SpectralAnalyzer_periodogram_twosided pi Fs (GridLens.periodogram.gridLen.eval ⟨n, none, none⟩) = trueTwoSided Fs n := by
+  have h : GridLens.periodogram.gridLen.eval ⟨n, none, none⟩ = n := by
+    simp [GridLens.periodogram, LenExpr.eval, LCond.eval]
+  refine ⟨?_, ?_, ?_⟩
+  · rw [← periodogram_grid_length_is_transform_length, h]
+  · rw [h]; exact SpectralAnalyzer_periodogram_onesided_is_true_grid pi Fs n
+  · rw [h]; exact SpectralAnalyzer_periodogram_twosided_is_true_grid pi Fs n
+
+theorem SpectralAnalyzer_spectrum_multi_taper_is_true_grid_of_used_transform (pi Fs : ℚ) (n : ℕ) :
+    GridLens.multi_taper_psd.transform.len ⟨n, none, none⟩ = n ∧
+    eval Grids.SpectralAnalyzer_spectrum_multi_taper_onesided pi Fs (GridLens.multi_taper_psd.gridLen.eval ⟨n, none, none⟩) = trueOneSided Fs n ∧
+    eval Grids.SpectralAnalyzer_spectrum_multi_taper_twosided pi Fs (GridLens.multi_taper_psd.gridLen.eval ⟨n, none, none⟩) = trueTwoSided Fs n := by
+  have h : GridLens.multi_taper_psd.gridLen.eval ⟨n, none, none⟩ = n := by
+    simp [GridLens.multi_taper_psd, LenExpr.eval, LCond.eval]
+  refine ⟨?_, ?_, ?_⟩
+  · rw [← multi_taper_psd_grid_length_is_transform_length, h]
+  · rw [h]; exact SpectralAnalyzer_spectrum_multi_taper_onesided_is_true_grid pi Fs n
+  · rw [h]; exact SpectralAnalyzer_spectrum_multi_taper_twosided_is_true_grid pi Fs n
+
+-- non-vacuity: 100 samples, a supplied 256-point transform, no NFFT: 129 one-sided bins, bin 40 at 156.25 Hz
+example : (eval Grids.periodogram_csd_onesided 3 1000 (GridLens.periodogram_csd.gridLen.eval ⟨100, none, some 256⟩)).length = 129
+    ∧ (eval Grids.periodogram_csd_onesided 3 1000 (GridLens.periodogram_csd.gridLen.eval ⟨100, none, some 256⟩))[40]? = some (625 / 4) := by
+  decide +kernel
+
+/-- contrast (the change class of seeded change C05-9): an estimator that takes the grid length from the data (or from
+`NFFT=`) while reading the values from the supplied transform labels bin 40 of a 256-point transform of 100 samples at
+1 kHz — 156.25 Hz — as 400 Hz -/
+theorem grid_from_data_length_mislabels_supplied_transform :
+    let bad : LenSite := ⟨.ite .nfftGiven .nfft .data, GridLens.periodogram_csd.transform⟩
+    bad.gridLen.eval ⟨100, none, some 256⟩ = 100 ∧ bad.transform.len ⟨100, none, some 256⟩ = 256 ∧
+      (trueOneSided 1000 256)[40]? = some (625 / 4) ∧ (trueOneSided 1000 100)[40]? = some 400 := by
+  decide +kernel
+
 /-! ### band selection -/
 
 theorem trueOneSided_getElem (Fs : ℚ) (N k : ℕ) (hk : k < (trueOneSided Fs N).length) :
